@@ -120,10 +120,13 @@ def _scan(case, lines):
     # callback ran exactly once before (also for objects handed over by re-entrant destructors / callbacks and
     # during ~DelayedDestructor)
     strict = hascb and nthrow == 0 and not any(op[0] == READD or (op[0] == ADD and op[1] != 0) for p in progs for op in p)
-    obs = {'bad': [], 'dtor': {}, 'cb': {}, 'slots': {}, 'faults': 0, 'throws': 0, 'unlocked': None}
+    obs = {'bad': [], 'dtor': {}, 'cb': {}, 'slots': {}, 'faults': 0, 'throws': 0, 'unlocked': None, 'readds': {}, 'lost': None}
     owner = None
+    depth = 0
+    alive = True          # until ~DelayedDestructor starts (the gate event)
     opidx = {}
     cur = {}
+    readds = obs['readds']
     slots = obs['slots']
     for i, l in enumerate(lines):
         if len(l) != 5 or l[0] < 0:
@@ -137,12 +140,19 @@ def _scan(case, lines):
                 slots[op[1]] = add_oid.get((t, opidx[t]), -1)
             elif op[0] == DROP and op[1] in slots:
                 del slots[op[1]]
-        elif k == K['LOCK'] or (k == K['TRYLOCK_FOR'] and v == 1):
-            if owner is not None:
+            elif op[0] == READD and op[1] in slots and alive:
+                readds[slots[op[1]]] = readds.get(slots[op[1]], 0) + 1
+        elif k == K['LOCK'] or (k in (K['TRYLOCK_FOR'], K['TRYLOCK']) and v == 1):
+            if owner is not None and owner != t:
                 obs['bad'].append('line %d: thread %d acquired destructionLock while thread %d owns it' % (i, t, owner))
+            depth = depth + 1 if owner == t else 1      # a recursive mutex may be locked again by its owner
             owner = t
         elif k == K['UNLOCK']:
-            owner = None
+            depth -= 1
+            if depth <= 0:
+                owner, depth = None, 0
+        elif k == K['DESTROY']:
+            alive = False
         elif k == K['FAULT']:
             obs['faults'] += 1
             if v == 5 and obs['unlocked'] is None:
@@ -169,6 +179,14 @@ def _scan(case, lines):
                 if oid in slots.values():
                     obs['bad'].append('line %d: object %d destroyed while a client slot still owns it' % (i, oid))
                 top = cur.get(t, [0])[0]
+                if top == DROP and alive:
+                    # a client-owned object that was handed over keeps its vector entry while the container lives, so a
+                    # client Drop can never be the last owner: the object has silently left the container
+                    msg = ('line %d: object %d destroyed by a client Drop while the container is alive: it was handed over '
+                           'but is no longer in the container%s' % (i, oid, ' (a callback had thrown)' if obs['throws'] else ''))
+                    obs['lost'] = obs['lost'] or msg
+                    if hascb:
+                        obs['bad'].append(msg + '; it never got its callback')
                 if hascb and nthrow == 0 and top in (DESTROY, DESTROY_DELAY) and obs['cb'].get(oid, 0) != 1:
                     obs['bad'].append('line %d: object %d reaped by destroyObjects with %d callback calls before its destructor'
                                       % (i, oid, obs['cb'].get(oid, 0)))
@@ -217,6 +235,12 @@ def mon_ledger(case, lines):
     head = fin[0]
     dead = len(head) > 3 and head[3] != 0
     owned = set(obs['slots'].values())
+    if not dead and len(head) > 2:
+        # the container is alive and idle: it holds one entry per push of every object not yet destroyed
+        want = sum(1 + obs['readds'].get(l[1], 0) for l in fin[1:] if len(l) >= 5 and l[3] == 0)
+        if head[2] != want:
+            return ('the container holds %d entries but %d are accounted for by the objects handed over and not yet destroyed'
+                    '%s' % (head[2], want, ' (a callback had thrown: objects left the container)' if obs['throws'] else ''))
     for l in fin[1:]:
         if len(l) < 5:
             continue
@@ -270,12 +294,26 @@ def mon_op_unlocked(case, lines):
     return None
 
 
+def mon_lost_on_throw(case, lines):
+    """C20: after a sweep ended by a callback's exception every handed-over object that is still referenced elsewhere must
+    still be in the container: no destruction by a client Drop while the container lives, and the final size accounts
+    for every live object"""
+    obs = _scan(case, lines)
+    if obs['lost']:
+        return obs['lost']
+    if obs['throws']:
+        r = mon_ledger(case, lines)
+        if r and 'entries' in r:
+            return r
+    return None
+
+
 def mon_unlocked_access(case, lines):
     """lockset rule (harness/delayeddestructor_extra.hpp): between construction and the start of ~DelayedDestructor the
     vector ElementsToBeDestroyed is touched only by the thread that owns destructionLock"""
     return _scan(case, lines)['unlocked']
 
 
-MONITORS = {'unlocked_access': mon_unlocked_access, 'op_unlocked': mon_op_unlocked, 'destroyed_twice': mon_destroyed_twice, 'destroyed_while_owned': mon_destroyed_while_owned,
+MONITORS = {'lost_on_throw': mon_lost_on_throw, 'unlocked_access': mon_unlocked_access, 'op_unlocked': mon_op_unlocked, 'destroyed_twice': mon_destroyed_twice, 'destroyed_while_owned': mon_destroyed_while_owned,
             'user_code_under_lock': mon_user_code_under_lock, 'callback': mon_callback, 'ledger': mon_ledger,
             'progress': mon_progress}
